@@ -20,7 +20,9 @@ R1c locate paths: on every path of _load_trajectory that reaches a record read
     (`_read_from_nc_var`) with "no size table" established (or without using the
     table), the record read is the requested index itself, of file 0; the table
     is used only on paths that established that it exists.  (The arithmetic on
-    the table paths is C09-R3.)
+    the table paths is C09-R3.)  The paths run through private methods that
+    _load_trajectory calls on the store itself (a split-off `_read_fields`)
+    and query methods of the file-set record (`locate(index)`).
 R2  one increment per successful add: on every normal path through `add` the
     next-index counter is incremented exactly once (`+= 1`, or stored as the
     saved entry value plus one), and the returned value is a copy of the counter
@@ -1064,7 +1066,12 @@ def locate_paths(ctx, rule: str, prog, m) -> tuple[list[LocatePath], object]:
         return isinstance(n, ast.Call) and isinstance(n.func, ast.Attribute) and n.func.attr == rd.name
 
     try:
-        sym = Sym(prog, load).run(is_read)
+        # the locate code may live in private methods of the store that _load_trajectory calls on itself (a split
+        # `_read_fields` / `_locate`): they are entered; the record read itself is the target, not entered
+        sym = Sym(prog, load)
+        sym.enter_methods = True
+        sym.opaque.add(rd.name)
+        sym.run(is_read)
     except SymUndecided as e:
         ctx.undecided(rule, load, 'locate paths', str(e))
     out = []
